@@ -368,6 +368,58 @@ def r193(ctx):
         ctx.bad(rid, ci, f"lammpstrj: the mandatory dump line {dump} is not `id type x y z vx vy vz id`: the on-the-fly reader's column test and sentinel no longer match")
 
 
+def _trr_dtype_form(ctx, rid, g, gp):
+    """read_matrix / read_coord written with a NumPy dtype instead of a struct format: the dtype
+    carries the byte order the header detected and the precision selected by `double`."""
+    fn = g.name
+    endian = next((p_ for p_ in gp if "endian" in p_), None)
+    dbl = next((p_ for p_ in gp if "double" in p_), None)
+    if endian is None or dbl is None:
+        raise AnalysisError(f"R-19.4: {fn} does not take (endian, double) (cannot decide)")
+    # a discarded newbyteorder(): dtype objects are immutable, the call returns a new dtype
+    for st in walk_local(g):
+        if isinstance(st, ast.Expr) and isinstance(st.value, ast.Call) and last_name(st.value) == "newbyteorder":
+            ctx.bad(rid, st, f"{fn}: the result of `{short(st.value, 40)}` is discarded - newbyteorder() returns a new dtype and leaves the old one unchanged, so the data block of a little-endian TRR file is decoded big-endian (header, sizes and box still decode correctly: silently wrong coordinates)", construct=f"{fn}: newbyteorder result discarded")
+            return
+    order_ok = False
+    for x in walk_local(g):
+        if isinstance(x, ast.JoinedStr) and x.values and isinstance(x.values[0], ast.FormattedValue) and isinstance(x.values[0].value, ast.Name) and x.values[0].value.id == endian:
+            order_ok = True
+        if isinstance(x, ast.Assign) and isinstance(x.value, ast.Call) and last_name(x.value) == "newbyteorder" and x.value.args and isinstance(x.value.args[0], ast.Name) and x.value.args[0].id == endian:
+            order_ok = True
+        if isinstance(x, ast.BinOp) and isinstance(x.op, ast.Add) and isinstance(x.left, ast.Name) and x.left.id == endian:
+            order_ok = True
+    if not order_ok:
+        ctx.bad(rid, g, f"{fn}: the dtype used to decode the block does not carry the byte order `{endian}` detected from the header: little-endian TRR files decode to byte-swapped numbers", construct=f"{fn}: dtype without the file's byte order")
+        return
+    gcfg = cfg_of(g)
+    prec = {}
+    for x in walk_local(g):
+        if isinstance(x, ast.IfExp) and isinstance(x.test, ast.Name) and x.test.id == dbl:
+            for br, truth in ((x.body, True), (x.orelse, False)):
+                t_ = ast.unparse(br)
+                if "8" in t_ or t_.rstrip("'\"").endswith("d"):
+                    prec.setdefault(8, set()).add(truth)
+                if "4" in t_ or t_.rstrip("'\"").endswith("f"):
+                    prec.setdefault(4, set()).add(truth)
+        elif isinstance(x, (ast.JoinedStr, ast.Constant)) and isinstance(getattr(x, "_parent", None), (ast.Assign, ast.Call, ast.keyword)):
+            t_ = ast.unparse(x).rstrip("'\"")
+            try:
+                nd_ = gcfg.node_of(x)
+            except Exception:
+                continue
+            for e, t, bn in gcfg.guards(nd_):
+                if isinstance(e, ast.Name) and e.id == dbl:
+                    if t_.endswith("8") or t_.endswith("d"):
+                        prec.setdefault(8, set()).add(t)
+                    if t_.endswith("4") or t_.endswith("f"):
+                        prec.setdefault(4, set()).add(t)
+    if prec.get(8) == {True} and prec.get(4) == {False}:
+        ctx.ok(rid, g, f"{fn}: dtype = file byte order + 8-byte floats under `{dbl}`, 4-byte floats otherwise")
+    else:
+        ctx.bad(rid, g, f"{fn} does not select 8-byte floats exactly under `{dbl}` and 4-byte floats otherwise ({prec})", construct=f"{fn}: precision dispatch of the dtype")
+
+
 def r194(ctx):
     rid = "R-19.4"
     tree = ctx.tree
@@ -447,8 +499,11 @@ def r194(ctx):
                 if isinstance(e, ast.Name) and e.id in gp and "double" in e.id:
                     seen_.setdefault(txt_[-1], set()).add(t)
         ok = seen_.get("d") == {True} and seen_.get("f") == {False}
+        uses_dtype = any(isinstance(c_, ast.Call) and last_name(c_) in ("frombuffer", "fromfile", "dtype") for c_ in walk_local(g))
         if ok:
             ctx.ok(rid, g, f"{fn}: double -> ...d, single -> ...f with the same element count")
+        elif uses_dtype:
+            _trr_dtype_form(ctx, rid, g, gp)
         else:
             ctx.bad(rid, g, f"{fn} does not dispatch both precisions on `double` with the same element count")
 
@@ -998,6 +1053,9 @@ def run(ctx):
     ctx.attempt(r199, ctx)
     ctx.rule("R-19.14", "the .lammpstrj box block is read whole (no column selection between the table read and the return): the writer writes whole rows", floor=1)
     ctx.attempt(r1914, ctx)
+    ctx.rule("R-19.15", "TRR frames decode for both byte orders: the byte order is exchanged exactly when the magic number differs as read (shared with C13 R-13.10)", floor=2)
+    from .c13 import trr_byte_order
+    ctx.attempt(trr_byte_order, ctx, "R-19.15", "")
     ctx.attempt(r1910, ctx)
     ctx.rule("R-19.11", "editing a CP2K section is local: one line out per line in, unaddressed lines kept, the rebuilt list stored as a plain copy", floor=2)
     ctx.attempt(r1911, ctx)
@@ -1017,6 +1075,9 @@ def run(ctx):
 
 
 VARIANTS = [
+    B("c19-trr-coord-newbyteorder-discarded", GROMACS, '    if double:\n        fmt = f"{endian}{natoms * _DIM}d"\n    else:\n        fmt = f"{endian}{natoms * _DIM}f"\n    read = read_struct_buff(fileh, fmt)\n    mat = np.array(read)\n    mat.shape = (natoms, _DIM)', '    dtype = np.dtype(">f8" if double else ">f4")\n    if endian != ">":\n        dtype.newbyteorder(endian)\n    buff = fileh.read(natoms * _DIM * dtype.itemsize)\n    if not buff:\n        raise EOFError\n    mat = np.frombuffer(buff, dtype=dtype).astype(np.float64)\n    mat.shape = (natoms, _DIM)', "R-19.4", control=True, why="seeded C19_k"),
+    K("c19-keep-trr-coord-frombuffer", GROMACS, '    if double:\n        fmt = f"{endian}{natoms * _DIM}d"\n    else:\n        fmt = f"{endian}{natoms * _DIM}f"\n    read = read_struct_buff(fileh, fmt)\n    mat = np.array(read)\n    mat.shape = (natoms, _DIM)', '    dtype = np.dtype(f"{endian}f8" if double else f"{endian}f4")\n    buff = fileh.read(natoms * _DIM * dtype.itemsize)\n    if not buff:\n        raise EOFError\n    mat = np.frombuffer(buff, dtype=dtype).astype(np.float64)\n    mat.shape = (natoms, _DIM)'),
+    K("c19-keep-trr-coord-newbyteorder-assigned", GROMACS, '    if double:\n        fmt = f"{endian}{natoms * _DIM}d"\n    else:\n        fmt = f"{endian}{natoms * _DIM}f"\n    read = read_struct_buff(fileh, fmt)\n    mat = np.array(read)\n    mat.shape = (natoms, _DIM)', '    dtype = np.dtype("f8" if double else "f4")\n    dtype = dtype.newbyteorder(endian)\n    buff = fileh.read(natoms * _DIM * dtype.itemsize)\n    if not buff:\n        raise EOFError\n    mat = np.frombuffer(buff, dtype=dtype).astype(np.float64)\n    mat.shape = (natoms, _DIM)'),
     B("c19-lammps-box-two-columns", LAMMPS, "    box = np.genfromtxt(infile, skip_header=block_size * frame + 5, max_rows=3)", "    box = np.genfromtxt(infile, skip_header=block_size * frame + 5, max_rows=3, usecols=(0, 1))", "R-19.14", control=True, why="seeded C19_j"),
     B("c19-lammps-box-sliced", LAMMPS, "    return id_type, pos, vel, box\n", "    return id_type, pos, vel, box[:, :2]\n", "R-19.14"),
     K("c19-keep-lammps-box-offset-local", LAMMPS, "    box = np.genfromtxt(infile, skip_header=block_size * frame + 5, max_rows=3)", "    start = block_size * frame\n    box = np.genfromtxt(infile, skip_header=start + 5, max_rows=3)"),
